@@ -79,17 +79,18 @@ pub fn rand_attr(rng: &mut StdRng, k: usize, tid: TransactionId) -> (Box<dyn Att
         6 => { let n = rng.gen_range(0..6); let l: Vec<u16> = (0..n).map(|_| rng.gen()).collect();
                let lt: Vec<AttributeType> = l.iter().map(|x| AttributeType::new(*x)).collect();
                (Box::new(UnknownAttributes::new(&lt)), json!({"t": 10, "list": l})) }
-        7 => { let a = rand_addr(rng); (Box::new(XorMappedAddress::new(a, tid)), json!({"t": 32, "addr": a.to_string()})) }
-        8 => { let a = rand_addr(rng); (Box::new(AlternateServer::new(a)), json!({"t": 32803, "addr": a.to_string()})) }
-        9 => { let v: u32 = rng.gen(); (Box::new(Priority::new(v)), json!({"t": 36, "u32": v})) }
+        7 => { let a = rand_addr(rng); (Box::new(XorMappedAddress::new(a, tid)), json!({"t": 32, "addr": crate::codec::addr_json(a)})) }
+        8 => { let a = rand_addr(rng); (Box::new(AlternateServer::new(a)), json!({"t": 32803, "addr": crate::codec::addr_json(a)})) }
+        9 => { let v: u32 = rng.gen(); (Box::new(Priority::new(v)), json!({"t": 36, "u32": v.to_be_bytes().to_vec()})) }
         10 => (Box::new(UseCandidate::new()), json!({"t": 37})),
-        11 => { let v: u64 = rng.gen(); (Box::new(IceControlled::new(v)), json!({"t": 32809, "u64": v.to_string()})) }
-        12 => { let v: u64 = rng.gen(); (Box::new(IceControlling::new(v)), json!({"t": 32810, "u64": v.to_string()})) }
-        13 => { let a = if rng.gen_bool(0.5) { PasswordAlgorithmValue::MD5 } else { PasswordAlgorithmValue::SHA256 };
-                (Box::new(PasswordAlgorithm::new(a)), json!({"t": 29})) }
-        14 => { let n = rng.gen_range(1..4); let l: Vec<PasswordAlgorithmValue> = (0..n).map(|_| if rng.gen_bool(0.5) { PasswordAlgorithmValue::MD5 } else { PasswordAlgorithmValue::SHA256 }).collect();
-                (Box::new(PasswordAlgorithms::new(&l)), json!({"t": 32770, "n": n})) }
-        15 => { let h: [u8; 32] = rng.gen(); (Box::new(Userhash::new(h)), json!({"t": 30})) }
+        11 => { let v: u64 = rng.gen(); (Box::new(IceControlled::new(v)), json!({"t": 32809, "u64": v.to_be_bytes().to_vec()})) }
+        12 => { let v: u64 = rng.gen(); (Box::new(IceControlling::new(v)), json!({"t": 32810, "u64": v.to_be_bytes().to_vec()})) }
+        13 => { let md5 = rng.gen_bool(0.5); let a = if md5 { PasswordAlgorithmValue::MD5 } else { PasswordAlgorithmValue::SHA256 };
+                (Box::new(PasswordAlgorithm::new(a)), json!({"t": 29, "alg": if md5 { 1 } else { 2 }})) }
+        14 => { let n = rng.gen_range(1..4); let ids: Vec<u8> = (0..n).map(|_| if rng.gen_bool(0.5) { 1 } else { 2 }).collect();
+                let l: Vec<PasswordAlgorithmValue> = ids.iter().map(|i| if *i == 1 { PasswordAlgorithmValue::MD5 } else { PasswordAlgorithmValue::SHA256 }).collect();
+                (Box::new(PasswordAlgorithms::new(&l)), json!({"t": 32770, "algs": ids})) }
+        15 => { let h: [u8; 32] = rng.gen(); (Box::new(Userhash::new(h)), json!({"t": 30, "hash": h.to_vec()})) }
         _ => {
             // raw attribute of an unknown type (comprehension required or optional), any length 0..=763
             let ty: u16 = loop {
@@ -132,6 +133,8 @@ pub fn main_gen(args: &[String]) {
         let seal = rng.gen_range(0..8);     // bit0 sha1, bit1 sha256, bit2 fingerprint
         let by_ext = rng.gen_bool(0.5);
         let trunc = if by_ext { *[16usize, 20, 24, 28, 32, 32, 32, 12, 18, 36].choose(&mut rng).unwrap() } else { 32 };
+        let unsealed_len = b.byte_len();
+        let mut lib_len: Option<usize> = None;
         let bytes = if by_ext {
             let mut v = b.build();
             let key = cred.key();
@@ -144,6 +147,7 @@ pub fn main_gen(args: &[String]) {
             if seal & 1 != 0 { b.add_message_integrity(&c, IntegrityAlgorithm::Sha1).unwrap(); }
             if seal & 2 != 0 { b.add_message_integrity(&c, IntegrityAlgorithm::Sha256).unwrap(); }
             if seal & 4 != 0 { b.add_fingerprint().unwrap(); }
+            lib_len = Some(b.byte_len());
             b.build()
         };
         // alternative credentials: another password, short-vs-long, long-term differing in one component
@@ -159,7 +163,63 @@ pub fn main_gen(args: &[String]) {
         let mut creds = vec![cred_json(&cred)];
         creds.extend(others.iter().map(cred_json));
         writeln!(out, "{}", json!({"id": i, "bytes": bytes, "creds": creds, "gen": {"class": class_name(class), "method": method,
-            "tid": tidv.to_be_bytes()[4..].to_vec(), "attrs": descs, "seal": seal, "by_ext": by_ext, "trunc": trunc}})).unwrap();
+            "tid": tidv.to_be_bytes()[4..].to_vec(), "attrs": descs, "seal": seal, "by_ext": by_ext, "trunc": trunc,
+            "unsealed_len": unsealed_len, "byte_len": lib_len}})).unwrap();
+    }
+    out.flush().unwrap();
+}
+
+/// `stunh genpaths <n> <seed> <out>`: random builders; every serialisation path must give the same bytes (C12)
+pub fn main_genpaths(args: &[String]) {
+    let n: usize = args[0].parse().unwrap();
+    let seed: u64 = args[1].parse().unwrap();
+    let mut out = std::io::BufWriter::new(std::fs::File::create(&args[2]).expect("out"));
+    let mut rng = StdRng::seed_from_u64(seed ^ 0xc12);
+    for i in 0..n {
+        let class = *[MessageClass::Request, MessageClass::Indication, MessageClass::Success, MessageClass::Error].choose(&mut rng).unwrap();
+        let method: u16 = rng.gen_range(0..0x1000);
+        let tid = TransactionId::from(rng.gen::<u128>() >> 32);
+        let mut b = Message::builder(MessageType::from_class_method(class, method), tid);
+        let na = rng.gen_range(0..=7);
+        let mut kinds: Vec<usize> = (0..20).collect();
+        kinds.shuffle(&mut rng);
+        let attrs: Vec<(Box<dyn AttributeWrite>, Value)> = kinds.iter().take(na).map(|k| rand_attr(&mut rng, *k, tid)).collect();
+        let mut raws = vec![];
+        for (a, _d) in &attrs {
+            if rng.gen_bool(0.3) { raws.push(a.to_raw().into_owned()); } else { let _ = b.add_attribute(a.as_ref()); }
+        }
+        for r in raws { let _ = b.add_raw_attribute(r); }
+        let cred = lib_cred(&rand_cred(&mut rng));
+        let seal = rng.gen_range(0..8);
+        if seal & 1 != 0 { b.add_message_integrity(&cred, IntegrityAlgorithm::Sha1).unwrap(); }
+        if seal & 2 != 0 { b.add_message_integrity(&cred, IntegrityAlgorithm::Sha256).unwrap(); }
+        if seal & 4 != 0 { b.add_fingerprint().unwrap(); }
+        let mut problems: Vec<String> = vec![];
+        let r = std::panic::catch_unwind(std::panic::AssertUnwindSafe(|| {
+            let mut p: Vec<String> = vec![];
+            let bytes = b.build();
+            let len = b.byte_len();
+            if bytes.len() != len { p.push(format!("build() {} bytes, byte_len() {}", bytes.len(), len)); }
+            let mut exact = vec![0xAAu8; len];
+            if !matches!(b.write_into(&mut exact), Ok(k) if k == len) || exact != bytes { p.push("write_into(exact) differs".into()); }
+            let mut larger = vec![0xAAu8; len + 16];
+            if !matches!(b.write_into(&mut larger), Ok(k) if k == len) || larger[..len] != bytes[..] || larger[len..].iter().any(|x| *x != 0xAA) {
+                p.push("write_into(len+16) differs or touches bytes beyond the length".into());
+            }
+            for short in [0usize, 1, 19, 20, 21, len / 2, len.saturating_sub(4), len.saturating_sub(1)] {
+                if short >= len { continue; }
+                let mut d = vec![0xAAu8; short];
+                match b.write_into(&mut d) {
+                    Err(StunWriteError::TooSmall { expected, actual }) if expected == len && actual == short && d.iter().all(|x| *x == 0xAA) => (),
+                    r => p.push(format!("write_into({short} of {len}) = {:?} or wrote", r.map_err(|e| format!("{e:?}")))),
+                }
+            }
+            if b.clone().build() != bytes { p.push("clone().build() differs".into()); }
+            if b.clone().into_owned().build() != bytes { p.push("into_owned().build() differs".into()); }
+            p
+        }));
+        match r { Ok(p) => problems.extend(p), Err(_) => problems.push("panic".into()) }
+        writeln!(out, "{}", json!({"id": i, "problems": problems})).unwrap();
     }
     out.flush().unwrap();
 }
